@@ -153,12 +153,22 @@ func (e *Evaluator) reading(clauses []*cypher.ReadingClause, rows []Env) ([]Env,
 				cp.Optional = false
 				m = &cp
 			}
+			if e.Dev.ExpansionSeedCrossJoinsEarlierFrame && expansionFromUnboundNode(m, rows) {
+				out, err := e.crossJoinedExpansion(m, rows)
+				if err != nil {
+					return nil, err
+				}
+				rows = out
+				e.matchSeen = true
+				continue
+			}
 			if named, prefix, ok := splitOptional(m); ok && e.Dev.OptionalMatchInnerJoinsLeadingSteps {
 				out, err := e.optionalLastStepOnly(m, named, prefix, rows)
 				if err != nil {
 					return nil, err
 				}
 				rows = out
+				e.matchSeen = true
 				continue
 			}
 			for _, r := range rows {
@@ -202,8 +212,8 @@ func (e *Evaluator) reading(clauses []*cypher.ReadingClause, rows []Env) ([]Env,
 				if err != nil {
 					return nil, err
 				}
-				if !matched && m.Optional && e.Dev.LeadingOptionalMatchYieldsNoRow && len(r) == 0 {
-					continue
+				if !matched && m.Optional && e.Dev.LeadingOptionalMatchYieldsNoRow && !e.matchSeen {
+					continue // no MATCH before it (only UNWIND / WITH of values): there is no frame to left-join to
 				}
 				if !matched && m.Optional {
 					ext := r.clone()
@@ -216,6 +226,7 @@ func (e *Evaluator) reading(clauses []*cypher.ReadingClause, rows []Env) ([]Env,
 				}
 			}
 			rows = next
+			e.matchSeen = true
 		case rc.Unwind != nil:
 			var next []Env
 			for _, r := range rows {
@@ -667,32 +678,15 @@ func splitOptional(m *cypher.Match) (named, prefix *cypher.PatternPart, ok bool)
 	if part.ShortestPathPattern || part.AllShortestPathsPattern || len(part.PatternElements) < 5 {
 		return nil, nil, false
 	}
-	cp := *part
-	cp.PatternElements = nil
-	for i, el := range part.PatternElements {
-		ne := &cypher.PatternElement{}
-		switch t := el.Element.(type) {
-		case *cypher.NodePattern:
-			c := *t
-			if c.Variable == nil {
-				c.Variable = &cypher.Variable{Symbol: fmt.Sprintf("%s%d", syntheticPrefix, i)}
-			}
-			ne.Element = &c
-		case *cypher.RelationshipPattern:
-			c := *t
-			if c.Variable == nil {
-				c.Variable = &cypher.Variable{Symbol: fmt.Sprintf("%s%d", syntheticPrefix, i)}
-			}
-			ne.Element = &c
-		default:
-			return nil, nil, false
-		}
-		cp.PatternElements = append(cp.PatternElements, ne)
+	named, ok = nameAnonymous(part)
+	if !ok {
+		return nil, nil, false
 	}
+	cp := *named
 	pre := cp
 	pre.Variable = nil
 	pre.PatternElements = cp.PatternElements[:len(cp.PatternElements)-2]
-	return &cp, &pre, true
+	return named, &pre, true
 }
 
 // optionalLastStepOnly evaluates OPTIONAL MATCH the way the translator emits a multi-step one: the leading steps are
@@ -763,4 +757,115 @@ func (e *Evaluator) optionalLastStepOnly(m *cypher.Match, named, prefix *cypher.
 		}
 	}
 	return next, nil
+}
+
+// expansionFromUnboundNode: a MATCH of one pattern part that starts with a variable-length step from a node that the
+// incoming rows do not bind, with at least one binding carried in.
+func expansionFromUnboundNode(m *cypher.Match, rows []Env) bool {
+	if m.Optional || len(m.Pattern) != 1 || len(rows) == 0 || len(rows[0]) == 0 {
+		return false
+	}
+	els := m.Pattern[0].PatternElements
+	if len(els) < 3 || m.Pattern[0].ShortestPathPattern || m.Pattern[0].AllShortestPathsPattern {
+		return false
+	}
+	first, ok := els[0].AsNodePattern()
+	if !ok {
+		return false
+	}
+	rel, ok := els[1].AsRelationshipPattern()
+	if !ok || rel.Range == nil {
+		return false
+	}
+	if first.Variable != nil {
+		if _, bound := rows[0][first.Variable.Symbol]; bound {
+			return false
+		}
+	}
+	return true
+}
+
+// crossJoinedExpansion evaluates such a MATCH the way the translator emits it: the seed of the recursive expansion is
+// every node that satisfies the predicates for SOME incoming row, and the expansion's rows are cross-joined with ALL
+// incoming rows (the frame is not correlated to the seed).
+func (e *Evaluator) crossJoinedExpansion(m *cypher.Match, rows []Env) ([]Env, error) {
+	seen := map[string]bool{}
+	var found []Env
+	pattern := m.Pattern
+	if named, ok := nameAnonymous(m.Pattern[0]); ok {
+		pattern = []*cypher.PatternPart{named}
+	}
+	for _, r := range rows {
+		var innerErr error
+		err := e.matchPattern(pattern, r, func(env Env) bool {
+			if m.Where != nil {
+				v, err := e.Eval(m.Where, env)
+				if err != nil {
+					innerErr = err
+					return false
+				}
+				if v != true {
+					return true
+				}
+			}
+			fresh := Env{}
+			for k, v := range env {
+				if _, carried := r[k]; !carried {
+					fresh[k] = v
+				}
+			}
+			if k := envKey(fresh, nil); !seen[k] {
+				seen[k] = true
+				found = append(found, fresh)
+			}
+			return true
+		})
+		if err == nil {
+			err = innerErr
+		}
+		if err != nil {
+			return nil, err
+		}
+	}
+	var out []Env
+	for _, r := range rows {
+		for _, f := range found {
+			ext := r.clone()
+			for k, v := range f {
+				if !strings.HasPrefix(k, syntheticPrefix) {
+					ext[k] = v
+				}
+			}
+			out = append(out, ext)
+		}
+	}
+	return out, nil
+}
+
+// nameAnonymous returns a copy of the pattern part in which every anonymous node and relationship pattern carries a
+// synthetic variable (so that two matches that differ only in an anonymous element are told apart).
+func nameAnonymous(part *cypher.PatternPart) (*cypher.PatternPart, bool) {
+	cp := *part
+	cp.PatternElements = nil
+	for i, el := range part.PatternElements {
+		ne := &cypher.PatternElement{}
+		switch t := el.Element.(type) {
+		case *cypher.NodePattern:
+			c := *t
+			if c.Variable == nil {
+				c.Variable = &cypher.Variable{Symbol: fmt.Sprintf("%s%d", syntheticPrefix, i)}
+			}
+			ne.Element = &c
+		case *cypher.RelationshipPattern:
+			c := *t
+			if c.Variable == nil {
+				c.Variable = &cypher.Variable{Symbol: fmt.Sprintf("%s%d", syntheticPrefix, i)}
+			}
+			ne.Element = &c
+		default:
+			return nil, false
+		}
+		cp.PatternElements = append(cp.PatternElements, ne)
+	}
+	return &cp, true
 }
